@@ -853,6 +853,13 @@ def cells_C05(tier, consts):
         cells.append(Cell("copy.strided.elem.N%d.M%d" % (n, m), "copy@L=1,N=%d" % n, "h_strided_copy_elem", defines=d, enforce="strided_copy_elem",
                           unwind=6, object_bits=10, backends=(("sat", 600), ("cadical", 600)), kind="bounded", bound="every extent <= 16 (row-major bound is nonlinear, see C01)",
                           closes_loops="unwinding to the template constants N, M (complete)", replay="copy"))
+    for k in range(0, 5 if tier == "quick" else 8):
+        for m, t in ((1, "float"), (3, "double")):
+            d = {"COPY_LAYER": 3, "DIMS_IN": 2, "DIMS_OUT": m, "OUT_SCALAR_T": t, "HILBERT_K": k}
+            cells.append(Cell("copy.hilbert.elem.k%d.M%d" % (k, m), "copy@L=3,N=2", "h_hilbert_copy_elem", defines=d, enforce="hilbert_copy_elem",
+                              unwind=max(k + 2, 4), object_bits=12, backends=(("sat", 600), ("cadical", 600)), kind="bounded",
+                              bound="curve order k = %d (every extent vector with that power-of-two hull)" % k,
+                              closes_loops="unwinding to k+1, N, M (complete for this cell)", replay="copy"))
     # allocation sizes and index maps the conversions rely on (same contracts as the lookups)
     cells += morton_cells(tier, ["alloc"])
     cells += [c for c in strided_cells(tier, ["alloc"])]
@@ -862,13 +869,13 @@ def cells_C05(tier, consts):
 
 PROPS["C05"] = {
     "level_text": "the per-element bodies of make_morton_copy and make_strided_copy (the nd_map callbacks) are proved to write exactly res[index_L(t)][0..M) := src(t) and to leave every other cell untouched, with index_L the same contract as the layer's lookup (conversions write where lookups read), for N and M independent; the allocation-size expressions of all three storage orders are proved to produce the cell count the lookups' representation invariant needs",
-    "level_note": "ASSUMED, not proved: nd_map visits every tuple of the box exactly once (C19, not applicable); the pass-through converting constructors of linear / nearest_neighbour / affine and field(const field<other>&) copy member-wise; the Hilbert callback is covered only through its index function (C01/C14 per-k cells) and its allocation size; CUDA device arrays are out of reach. The whole-conversion statement follows from the per-element obligations by induction over nd_map's visit order under those assumptions",
+    "level_note": "ASSUMED, not proved: nd_map visits every tuple of the box exactly once (C19, not applicable); the pass-through converting constructors of linear / nearest_neighbour / affine and field(const field<other>&) copy member-wise; the Hilbert callback is covered per curve order k (bounded); CUDA device arrays are out of reach. The whole-conversion statement follows from the per-element obligations by induction over nd_map's visit order under those assumptions",
     "design_ref": "DESIGN.md section 5 (C05)",
     "cells": cells_C05, "consts": True,
     "explanation": "per-element conversion bodies against the lookup's index contract",
     "trusted_base": ["abstract source-field stub (contracts/copy.h)"],
     "assumptions": ["nd_map visits each tuple of the box exactly once (C19)", "wrapper layers' converting constructors copy member-wise"],
-    "not_covered": ["make_hilbert_copy's callback body (its index function and allocation size are covered)", "field-level converting constructors", "CUDA"],
+    "not_covered": ["field-level converting constructors", "CUDA"],
 }
 
 
